@@ -21,7 +21,6 @@ import os
 import random
 import re
 import time
-from fractions import Fraction
 
 from pv import codec
 from pv.nat import lib
@@ -1447,14 +1446,14 @@ def plan_jobs(tier, seed):
     grid_titles = [['S', 'Q1-2024 (final)', 'Лист1'], ['My Sheet', 'T2', 'x,y;z']] + (title_sets(rng, 6, 3) if big else [])
     for i, ts in enumerate(grid_titles):
         add('grid', i, titles=ts, second=False)
-    for i, ts in enumerate(title_sets(rng, 72 if big else 12, 3)):
+    for i, ts in enumerate(title_sets(rng, 48 if big else 12, 3)):
         add('sample', i, titles=ts, n=300 if big else 130, second=True)
     for i, ts in enumerate(title_sets(rng, 9 if big else 3, 14)):
         add('titles', i, titles=ts, n=60 if big else 28, second=big or i == 0)
-    for i, ts in enumerate(title_sets(rng, 18 if big else 3, 2)):
+    for i, ts in enumerate(title_sets(rng, 14 if big else 3, 2)):
         ts = [t for t in ts if t != EMPTY_TITLE]
         add('far', i, titles=ts, n=200 if big else 80, deep=(i % 3 == 2), second=(i % 2 == 0))
-    for i, ts in enumerate(title_sets(rng, 36 if big else 4, 3)):
+    for i, ts in enumerate(title_sets(rng, 28 if big else 4, 3)):
         ts = [t for t in ts if t != EMPTY_TITLE]
         add('fn', i, titles=ts, n=300 if big else 180, second=(i % 4 == 0))
     add('risky', 0, per_title=14 if big else 3)
